@@ -496,7 +496,7 @@ example : ∃ p', createPlan tMdl.g [0] [2, 1] (cacheOpts false) = .ok p' ∧
       (Executor.runPlan Executor.okOps Executor.twoRun Executor.nocap p' [2, 1]).outcome = .ok vals :=
   c22_values_sequential (m := tMdl) (k := { req := ⟨[(0, tv)], [2, 1]⟩ }) Reachable.cold tCalls [0, 1]
     (i := 1) (by decide) (by decide) rfl Executor.twoRun_wf rfl
-    ⟨fun _ => List.nodup_nil, fun _ h => absurd rfl h, fun _ _ _ _ _ _ _ _ _ => rfl⟩
+    Executor.okOps_contract
     twoFailing_unique (by intro d hd; simp [Req.ids] at hd; subst hd; rfl)
 
 end RtenVerif.PlanCache
